@@ -94,6 +94,8 @@ let functions : (string * (val0 -> val0)) list = [
 let monitors : ((string * string) * (val0 -> val0 -> val0)) list = [
   (("C04", "hub"), mon_C04);
   (("C10", "hub"), mon_C10);
+  (("C12", "hub"), mon_C12);
+  (("C13", "hub"), mon_C13);
 ]
 
 let first_diff (a : val0) (b : val0) : int =
